@@ -23,7 +23,7 @@ import (
 // comparison flaky; it is reported by the "lower" stage instead).
 var stages = append([]string{"lower", "spirv", "hlsl", "msl", "glsl", "dxil"}, bodies.Variants...)
 
-const rotCapThorough = 24
+const rotCapThorough = 1024
 
 const notApplicable = "c12x: stage does not apply to this program"
 
